@@ -20,7 +20,8 @@ EXPLANATION = (
     'Number.__trunc__ and the even-integer step of EVEN at the critical points around even integers; (C16.3) the rounding family '
     'rounds in decimal: the value enters Decimal through str() and is not scaled by a power of ten or divided by the significance '
     'in binary floating point before floor/ceil/trunc; (C16.4) ATAN2(x, y) hands y to the first parameter of arctan2; (C16.5) '
-    'the rounding mode is set only inside decimal.localcontext().')
+    'the rounding mode is set only inside decimal.localcontext().'
+    ' (C16.6) ROUND/ROUNDUP/ROUNDDOWN/INT and POWER as the evaluator calls them, decimal arithmetic folded: half away from zero at every digit count, no Python-level exception for large magnitudes or many digits, negative bases with whole-valued exponents however stored; (C16.2) _round itself on witnesses, the process-wide decimal context untouched.')
 NOT_DECIDED = 'agreement with IEEE/decimal reference values (numeric)'
 TRUSTED = ['argument conventions of numpy.arctan2 and of the decimal rounding modes']
 
